@@ -887,3 +887,183 @@ func ext۰atomic۰Value۰Store(fr *frame, args []value) value {
 	s[0] = args[1]
 	return nil
 }
+
+// ---- protobuf: faithful blob model ----
+//
+// proto.Marshal(m) returns an opaque token; proto.Unmarshal(token, m2) makes m2 a
+// deep copy of what was marshalled (Unmarshal(Marshal(m)) = m). Native replay
+// uses the real encoder.
+
+func deepCopyValue(v value, memo map[*value]*value) value {
+	switch x := v.(type) {
+	case structure:
+		o := make(structure, len(x))
+		for i := range x {
+			o[i] = deepCopyValue(x[i], memo)
+		}
+		return o
+	case array:
+		o := make(array, len(x))
+		for i := range x {
+			o[i] = deepCopyValue(x[i], memo)
+		}
+		return o
+	case []value:
+		if x == nil {
+			return x
+		}
+		o := make([]value, len(x))
+		for i := range x {
+			o[i] = deepCopyValue(x[i], memo)
+		}
+		return o
+	case *value:
+		if x == nil {
+			return x
+		}
+		if n, ok := memo[x]; ok {
+			return n
+		}
+		n := new(value)
+		memo[x] = n
+		*n = deepCopyValue(*x, memo)
+		return n
+	case *smap:
+		if x == nil {
+			return x
+		}
+		o := &smap{keyType: x.keyType, index: map[string]*mentry{}}
+		for _, e := range x.entries {
+			if e.deleted {
+				continue
+			}
+			ne := &mentry{key: deepCopyValue(e.key, memo), val: deepCopyValue(e.val, memo)}
+			o.entries = append(o.entries, ne)
+			o.live++
+			if enc, conc := encKey(ne.key); conc {
+				o.index[enc] = ne
+			} else {
+				o.symKeys++
+			}
+		}
+		return o
+	case iface:
+		return iface{t: x.t, v: deepCopyValue(x.v, memo)}
+	}
+	return v
+}
+
+type protoBlob struct {
+	t types.Type
+	v value
+}
+
+func ext۰proto۰Marshal(fr *frame, args []value) value {
+	st := fr.i.st
+	m := args[0].(iface)
+	if m.t == nil {
+		return tuple{[]value(nil), iface{}}
+	}
+	p := m.v.(*value)
+	if p == nil {
+		return tuple{[]value(nil), iface{}}
+	}
+	blob := &protoBlob{t: m.t, v: deepCopyValue(*p, map[*value]*value{})}
+	st.blobs = append(st.blobs, blob)
+	id := len(st.blobs)
+	return tuple{[]value{uint8(0xfb), uint8('P'), uint8('B'), uint8(id >> 16), uint8(id >> 8), uint8(id)}, iface{}}
+}
+
+func ext۰proto۰Unmarshal(fr *frame, args []value) value {
+	st := fr.i.st
+	b := args[0].([]value)
+	m := args[1].(iface)
+	p := fr.derefCheck(m.v.(*value))
+	elem := mustDeref(m.t)
+	if len(b) == 0 {
+		*p = zero(elem)
+		return iface{}
+	}
+	bad := func() value { return fr.errorValue("proto: cannot parse invalid wire-format data") }
+	if len(b) != 6 {
+		return bad()
+	}
+	var raw [6]byte
+	for i, x := range b {
+		c, ok := x.(uint8)
+		if !ok {
+			st.unsupported("proto.Unmarshal of symbolic bytes")
+		}
+		raw[i] = c
+	}
+	if raw[0] != 0xfb || raw[1] != 'P' || raw[2] != 'B' {
+		return bad()
+	}
+	id := int(raw[3])<<16 | int(raw[4])<<8 | int(raw[5])
+	if id < 1 || id > len(st.blobs) {
+		return bad()
+	}
+	blob := st.blobs[id-1]
+	if !types.Identical(blob.t, m.t) {
+		return bad()
+	}
+	*p = deepCopyValue(blob.v, map[*value]*value{})
+	return iface{}
+}
+
+// ---- sync.Map, time.Time ----
+
+func (st *pathState) syncMap(p *value) *smap {
+	m := st.syncMaps[p]
+	if m == nil {
+		m = &smap{keyType: types.NewInterfaceType(nil, nil), index: map[string]*mentry{}}
+		st.syncMaps[p] = m
+	}
+	return m
+}
+
+func ext۰syncMap۰Store(fr *frame, a []value) value {
+	fr.i.st.syncMap(a[0].(*value)).insert(fr, a[1], a[2])
+	return nil
+}
+
+func ext۰syncMap۰Load(fr *frame, a []value) value {
+	v, ok := fr.i.st.syncMap(a[0].(*value)).lookup(fr, a[1])
+	if !ok {
+		return tuple{iface{}, false}
+	}
+	return tuple{v, true}
+}
+
+func ext۰syncMap۰Delete(fr *frame, a []value) value {
+	fr.i.st.syncMap(a[0].(*value)).delete(fr, a[1])
+	return nil
+}
+
+func ext۰syncMap۰Range(fr *frame, a []value) value {
+	m := fr.i.st.syncMap(a[0].(*value))
+	ents := append([]*mentry{}, m.entries...)
+	for _, e := range ents {
+		if e.deleted {
+			continue
+		}
+		if !fr.truth(call(fr.i, fr, 0, a[1], []value{e.key, e.val})) {
+			break
+		}
+	}
+	return nil
+}
+
+func ext۰time۰Time۰UnixNano(fr *frame, a []value) value {
+	return a[0].(structure)[1].(int64)
+}
+
+func init() {
+	externals["google.golang.org/protobuf/proto.Marshal"] = ext۰proto۰Marshal
+	externals["google.golang.org/protobuf/proto.Unmarshal"] = ext۰proto۰Unmarshal
+	externals["(*sync.Map).Store"] = ext۰syncMap۰Store
+	externals["(*sync.Map).Load"] = ext۰syncMap۰Load
+	externals["(*sync.Map).Delete"] = ext۰syncMap۰Delete
+	externals["(*sync.Map).Range"] = ext۰syncMap۰Range
+	externals["(time.Time).UnixNano"] = ext۰time۰Time۰UnixNano
+}
